@@ -95,7 +95,15 @@ fn exec(pool: &Pool<UObj>, sh: &Sh, tasks: &mut HashMap<String, UTask>, step: &V
 }
 
 fn observe(pool: &Pool<UObj>) -> (Value, Value) {
-    match catch_unwind(AssertUnwindSafe(|| observe_inner(pool))) { Ok(v) => v, Err(_) => (json!("panic"), json!("panic")) }
+    // on a helper thread with a deadline: while a parked thread holds the queue lock (only possible in changed code) the
+    // observation cannot be made - reported like a panicking observation, which is what the engine records for such states
+    let (tx, rx) = std::sync::mpsc::channel();
+    let p2 = pool.clone();
+    std::thread::spawn(move || {
+        let v = match catch_unwind(AssertUnwindSafe(|| observe_inner(&p2))) { Ok(v) => v, Err(_) => (json!("panic"), json!("panic")) };
+        let _ = tx.send(v);
+    });
+    rx.recv_timeout(Duration::from_millis(1500)).unwrap_or((json!("panic"), json!("panic")))
 }
 
 fn observe_inner(pool: &Pool<UObj>) -> (Value, Value) {
@@ -127,6 +135,7 @@ pub fn run(trace: &Value) {
         println!("{}", json!({"i": -1, "res": ["built"], "events": []}));
         let mut tasks: HashMap<String, UTask> = HashMap::new();
         for (i, step) in trace["actions"].as_array().unwrap().iter().enumerate() {
+            crate::progress(i);
             sh.lock().unwrap().actor = step["thread"].as_str().unwrap().to_string();
             if let Some(adv) = step.get("advance_ns").and_then(|v| v.as_u64()) { if adv > 0 { tokio::time::advance(Duration::from_nanos(adv)).await; } }
             let res = exec(&pool, &sh, &mut tasks, step);
@@ -163,6 +172,7 @@ fn run_threads(trace: &Value, sh: Sh) {
         workers.insert(n.clone(), Worker { cmd: cmd_tx, resume: res_tx, report: rep_rx, busy: false });
     }
     for (i, step) in trace["actions"].as_array().unwrap().iter().enumerate() {
+            crate::progress(i);
         let tname = step["thread"].as_str().unwrap();
         let w = workers.get_mut(tname).unwrap();
         if step["act"][0] == "step" {
